@@ -125,26 +125,26 @@ type Stored struct {
 }
 
 type Case struct {
-	ID      int     `json:"id"`
-	Kind    string  `json:"kind"` // compile | store
-	Gen     string  `json:"gen"`  // generator that produced it
-	Entries []Entry `json:"entries,omitempty"`
-	Svc     string  `json:"svc,omitempty"`
-	DC      string  `json:"dc,omitempty"`
-	Ovr     string  `json:"override,omitempty"`
-	Wide    *WideCtx `json:"wide,omitempty"`
-	Valid   bool    `json:"valid"` // every entry passes Normalize+Validate (what an endpoint can emit)
-	Outs    []Out   `json:"outs,omitempty"`
-	Ops     []Op    `json:"ops,omitempty"`
-	Oracle  string  `json:"oracle"`
+	ID      int                    `json:"id"`
+	Kind    string                 `json:"kind"` // compile | store
+	Gen     string                 `json:"gen"`  // generator that produced it
+	Entries []Entry                `json:"entries,omitempty"`
+	Svc     string                 `json:"svc,omitempty"`
+	DC      string                 `json:"dc,omitempty"`
+	Ovr     string                 `json:"override,omitempty"`
+	Wide    *WideCtx               `json:"wide,omitempty"`
+	Valid   bool                   `json:"valid"` // every entry passes Normalize+Validate (what an endpoint can emit)
+	Outs    []Out                  `json:"outs,omitempty"`
+	Ops     []Op                   `json:"ops,omitempty"`
+	Oracle  string                 `json:"oracle"`
 	Sig     map[string]interface{} `json:"sig,omitempty"`
-	ToCoq   bool    `json:"to_coq"`
-	Feat    []string `json:"feat,omitempty"`
+	ToCoq   bool                   `json:"to_coq"`
+	Feat    []string               `json:"feat,omitempty"`
 }
 
 type WideCtx struct {
-	MeshGW  string `json:"mesh_gw,omitempty"`
-	Timeout int    `json:"timeout_ms,omitempty"`
+	MeshGW  string   `json:"mesh_gw,omitempty"`
+	Timeout int      `json:"timeout_ms,omitempty"`
 	Peers   []string `json:"peers,omitempty"`
 }
 
@@ -1637,7 +1637,7 @@ func main() {
 		}
 	}
 
-	nRandom, nMal, nWide, nStore, nDeep, wv := 1500, 500, 600, 260, 12, 1
+	nRandom, nMal, nWide, nStore, nDeep, wv := 1200, 400, 500, 200, 12, 1
 	if thorough {
 		nRandom, nMal, nWide, nStore, nDeep, wv = 12000, 4000, 6000, 2500, 60, 3
 	}
